@@ -221,6 +221,10 @@ func verdict(t *rapid.T, prop string, c interface{}, o *Outcome) {
 		recordX(statLine{P: prop, H: "known", K: o.Key}, nil)
 		return
 	}
+	if strings.HasSuffix(o.Key, "/harness") {
+		// a self-check of the harness failed: inconclusive, never a violation (no fail file => driver exits 2)
+		t.Fatalf("HARNESS SELF-CHECK FAILED: %s", o.Error())
+	}
 	saveFail(prop, c, o)
 	t.Fatalf("%s violated: %s", prop, o.Error())
 }
